@@ -198,9 +198,10 @@ def in_other_thread(fn):
         raise err[0]
 
 
-def run_interleaved(path, used, where, schedule):
+def run_interleaved(path, used, where, schedule, observer=None, doc=None, raise_in_body=False):
     """encode document A (palette `used`) while thread B acts at chosen call boundaries.
-    schedule: list of (k, op) - before A's k-th call into the colour API, B performs op() on its own thread."""
+    schedule: list of (k, op) - before A's k-th call into the colour API, B performs op() on its own thread.
+    observer(k): called at EVERY such boundary (what any other thread could see at that moment)."""
     counter = {"n": 0}
     me = threading.get_ident()
     saved = {name: getattr(ColorService, name) for name in API_POINTS}
@@ -212,6 +213,8 @@ def run_interleaved(path, used, where, schedule):
             if threading.get_ident() == me:
                 k = counter["n"]
                 counter["n"] += 1
+                if observer is not None:
+                    observer(k)
                 for kk, op in schedule:
                     if kk == k:
                         in_other_thread(op)
@@ -221,11 +224,36 @@ def run_interleaved(path, used, where, schedule):
     for name in API_POINTS:
         setattr(ColorService, name, wrap(name))
     try:
-        res = run_encode(path, used, where)
+        res = run_encode(path, used, where, doc=doc, raise_in_body=raise_in_body)
     finally:
         for name, fn in saved.items():
             setattr(ColorService, name, fn)
     return res, counter["n"]
+
+
+def shared_objects_stable(path, used, where, raise_in_body=False):
+    """encode a document whose component objects may be shared with documents other threads are encoding: at every call
+    boundary of the encode (and after it returned or raised) those caller-owned objects must hold the values they had when
+    the encode started.  Returns the list of boundaries at which they did not."""
+    doc = make_doc(used, where, multi=(path == 1), figure=(path == 2))
+
+    def owned():
+        comps = [doc.rtf_page, doc.rtf_title, doc.rtf_footnote, doc.rtf_page_header, doc.rtf_column_header]
+        if doc.rtf_body is not None:
+            comps.append(doc.rtf_body)
+        return snapshot(comps)
+    base = []
+    bad = []
+
+    def observer(k):
+        if not base:
+            base.append(owned())          # first boundary = entry of encode (the harness has finished preparing the document)
+        elif owned() != base[0]:
+            bad.append(k)
+    res, calls = run_interleaved(path, used, where, [], observer=observer, doc=doc, raise_in_body=raise_in_body)
+    if base and owned() != base[0]:
+        bad.append("after")
+    return bad, calls
 
 
 def b_op(kind, palette):
